@@ -94,6 +94,11 @@ func suiteC19(cfg Config, res *Result) {
 			steps = append(steps, chainStep{f, p})
 		}
 		base := rng.Pick([]string{"s", "t", "i", "f", "l", "li", "nl", "h", `"lit x"`, "42"})
+		// a leading minus belongs to the whole filtered term: -5|add:2 is -(5|add:2)
+		neg := rng.Chance(1, 8)
+		if neg {
+			base = rng.Pick([]string{"5", "i", "f", "42", "n"})
+		}
 		// expected through the public API
 		var val *pongo2.Value
 		func() {
@@ -107,10 +112,23 @@ func suiteC19(cfg Config, res *Result) {
 					return
 				}
 			}
+			if neg {
+				switch {
+				case val.IsFloat():
+					val = pongo2.AsValue(-1.0 * val.Float())
+				case val.IsNumber():
+					val = pongo2.AsValue(-1 * val.Integer())
+				default:
+					val = nil // a sign on something that is not a number is an execution error
+				}
+			}
 		}()
 		src := base + chainSrc(steps)
+		if neg {
+			src = "-" + src
+		}
 		pos := positions[rng.Intn(len(positions))]
-		if rng.Chance(1, 6) && k > 0 {
+		if rng.Chance(1, 6) && k > 0 && !neg {
 			// the filter tag: the chain applied to the rendered body
 			full := "{% autoescape off %}{% filter " + strings.TrimPrefix(chainSrc(steps), "|") + " %}{{ " + base + " }}{% endfilter %}{% endautoescape %}"
 			var v2 *pongo2.Value
